@@ -472,4 +472,59 @@ class C19(Prop):
                         "tcp": {c.name: self.api.SWITCHER_DEVICE_TO_TCP_PORT.get(c) for c in dv.DeviceCategory}})
 
 
+    def thread_pairs(self, ctx):
+        dv = self.device
+        cats = list(dv.DeviceCategory)
+
+        def table(mod, name, want):
+            def call():
+                t = getattr(mod, name)
+                return {c.name: t.get(c) for c in cats}
+
+            def j(res):
+                if not isinstance(res, dict):
+                    return f"{res!r}"
+                exp = {c.name: want[next(t.protocol_type for t in dv.DeviceType if t.category is c)] for c in cats}
+                return None if res == exp else f"the table maps {res}, want {exp}"
+            return call, j
+
+        udp_call, udp_j = table(self.bridge, "SWITCHER_DEVICE_TO_UDP_PORT", UDP)
+        tcp_call, tcp_j = table(self.api, "SWITCHER_DEVICE_TO_TCP_PORT", TCP)
+
+        def build(cname, tname):
+            cls, t = getattr(dv, cname), dv.DeviceType[tname]
+            should = t.category.name == CLASS_CATEGORY[cname]
+
+            def call():
+                try:
+                    cls(**self._args_for(cls, t))
+                    return "accepted"
+                except ValueError:
+                    return "refused"
+
+            def j(res):
+                want = "accepted" if should else "refused"
+                return None if res == want else f"{cname}({tname}) was {res}, want {want}"
+            return call, j
+
+        out = [("first lookups in the UDP port table || same", udp_call, udp_call, udp_j, udp_j),
+               ("first lookups in the TCP port table || same", tcp_call, tcp_call, tcp_j, tcp_j)]
+        # what was built last matters to anything that remembers "the last check that passed": build one of another family first
+        for (pc, pt), (ca, ta), (cb, tb) in ((("SwitcherShutter", "RUNNER_MINI"), ("SwitcherWaterHeater", "MINI"), ("SwitcherShutter", "MINI")),
+                                            (("SwitcherWaterHeater", "V4"), ("SwitcherShutter", "RUNNER"), ("SwitcherWaterHeater", "RUNNER")),
+                                            (("SwitcherThermostat", "BREEZE"), ("SwitcherPowerPlug", "POWER_PLUG"), ("SwitcherThermostat", "POWER_PLUG")),
+                                            (("SwitcherPowerPlug", "POWER_PLUG"), ("SwitcherThermostat", "BREEZE"), ("SwitcherPowerPlug", "BREEZE"))):
+            p_call, _ = build(pc, pt)
+            a_call, a_j = build(ca, ta)
+            b_call, b_j = build(cb, tb)
+            out.append((f"{pc}({pt}) then {ca}({ta}) || {cb}({tb})", (lambda p_=p_call, a_=a_call: (p_(), a_())[1]), b_call, a_j, b_j))
+        for (ca, ta), (cb, tb) in ((("SwitcherShutter", "RUNNER"), ("SwitcherWaterHeater", "RUNNER")), (("SwitcherWaterHeater", "MINI"), ("SwitcherShutter", "MINI")),
+                                   (("SwitcherThermostat", "BREEZE"), ("SwitcherPowerPlug", "BREEZE")), (("SwitcherPowerPlug", "POWER_PLUG"), ("SwitcherThermostat", "POWER_PLUG"))):
+            a_call, a_j = build(ca, ta)
+            b_call, b_j = build(cb, tb)
+            out.append((f"{ca}({ta}) || {cb}({tb})", a_call, b_call, a_j, b_j))
+            out.append((f"{cb}({tb}) || {ca}({ta})", b_call, a_call, b_j, a_j))
+        return out
+
+
 PROP = C19()
